@@ -1,6 +1,7 @@
 package main
 
 import (
+	"math"
 	"fmt"
 	"sort"
 	"strings"
@@ -73,6 +74,11 @@ func idx(r *rng.R) cty.Value {
 		return cty.NumberIntVal(int64(r.Intn(2000) - 1000))
 	case 2:
 		return cty.MustParseNumberVal("1e30")
+	case 3:
+		// the ends of the machine integer ranges: sums and products of offsets and lengths wrap here
+		// (nothing in between: a count of 2^31 is a legitimate request for gigabytes)
+		return []cty.Value{cty.NumberIntVal(math.MaxInt64), cty.NumberIntVal(math.MinInt64), cty.NumberIntVal(math.MaxInt64 - 1),
+			cty.NumberUIntVal(math.MaxUint64), cty.NumberUIntVal(1 << 63), cty.NumberIntVal(math.MinInt64 + 1)}[r.Intn(6)]
 	default:
 		return intv(r, -2, 5)
 	}
